@@ -292,11 +292,11 @@ def run_steps_plain(node, steps):
         before = c04.cache_rows(node)
         timed_out = False
         try:
-            reply = with_timeout(5, lambda: node.request(conn, st['kind'], st['spec'], st['data']))
+            reply = with_timeout(30, lambda: node.request(conn, st['kind'], st['spec'], st['data']))
         except _Timeout:
-            # the request went into a real driver and did not return: recorded as such, the node is left alone
-            reply = ('error_' + st['kind'], st['spec'], ['Timeout', 'Timeout', {}])
-            timed_out = True
+            # the request went into a real driver and did not return (or the machine is overloaded): a time-out is
+            # never a verdict — the check ends as a harness problem (exit 2)
+            raise RuntimeError(f'request {st["kind"]} {st["spec"]} on a shipped configuration did not return within 30 s')
         data = st['data']
         wire = canonj(data) if st['kind'] == 'change' else (None if data is None else canonj(data)) if st['kind'] == 'do' else bool(data)
         out.append({'req': [st['kind'], st['spec'], wire], 'drv': 'none',
